@@ -62,7 +62,8 @@ type Result struct {
 	Fatal    string          `json:"fatal,omitempty"` // worker-side problem that is not about the engine
 	R        json.RawMessage `json:"r,omitempty"`     // payload for the other kinds
 	Counters *Counters       `json:"counters,omitempty"`
-	Hooks    bool            `json:"hooks"` // worker was built with the verif tag
+	Hooks    bool            `json:"hooks"`             // worker was built with the verif tag
+	WallMS   int64           `json:"wall_ms,omitempty"` // time the worker spent on the case (evidence only, never a verdict)
 }
 
 // StepResult is the observation of one Step.
